@@ -709,8 +709,11 @@ def api_cases(tier, rng, budget=1):
             s0 = rand_spec(rng, [], 1.0)
             s1 = rand_spec(rng, sh, 0.7)
             a_, b_ = (s0, s1) if zero_first else (s1, s0)
-            add("dot", a_, ka if ka != "gcxs" or (a_ is s1 and len(sh) >= 1) else "coo", b_,
-                kb if kb != "gcxs" or (b_ is s1 and len(sh) >= 1) else "coo", tag="dot0d", follow=False)
+            ka_ = ka if ka != "gcxs" or (a_ is s1 and len(sh) >= 1) else "coo"
+            kb_ = kb if kb != "gcxs" or (b_ is s1 and len(sh) >= 1) else "coo"
+            add("dot", a_, ka_, b_, kb_, tag="dot0d", follow=False)
+            # matmul / @ reject 0-d operands (ValueError, like np.matmul)
+            add(rng.choice(["matmul", "at"]) if not (ka_ == "nd" and a_ is s0) else "matmul", a_, ka_, b_, kb_, tag="matmul0d", follow=False)
     # ---- vecdot with operands of different ndim / broadcasting batch axes (axis is taken in each operand)
     for _ in range(16 if quick else 120):
         k = rng.choice([1, 2, 3])
@@ -729,9 +732,10 @@ def api_cases(tier, rng, budget=1):
             ka = "coo"
         add("vecdot", rand_spec(rng, xa), ka, rand_spec(rng, xb), kb, axis=axis, tag="vecdot_bcast", follow=False)
     # ---- einsum terms with more subscripts than the operand has dimensions (ValueError like NumPy)
-    for sub, sa_, sb_ in (("ijk->i", (2, 3), None), ("ijk,k->ij", (2, 3), (3,)), ("ij,jkl->ik", (2, 3), (3, 2)), ("iij->j", (2, 2), None)):
+    for sub, sa_, sb_ in (("ijk->i", (2, 3), None), ("ijk,k->ij", (2, 3), (3,)), ("ij,jkl->ik", (2, 3), (3, 2)), ("iij->j", (2, 2), None),
+                          ("ij->ii", (2, 2), None), ("ij,jk->ikk", (2, 3), (3, 2))):   # the last two: an output subscript twice
         add("einsum", rand_spec(rng, sa_, 0.8), rng.choice(["coo", "gcxs"]), None if sb_ is None else rand_spec(rng, sb_, 0.8),
-            None if sb_ is None else rng.choice(["coo", "nd"]), sub=sub, tag="einsum_too_many_subscripts", follow=False)
+            None if sb_ is None else rng.choice(["coo", "nd"]), sub=sub, tag="einsum_malformed", follow=False)
     # ---- malformed: mismatching contracted extents (must raise like NumPy)
     for _ in range(30 if quick else 200):
         m, n, n2, p = rng.choice([1, 2, 3]), rng.choice([1, 2, 3]), rng.choice([1, 2, 3, 4]), rng.choice([1, 2, 3])
